@@ -14,7 +14,7 @@ PROPERTY = 'C08'
 META = {
     'level': 'exploration',
     'technique': 'runtime monitors under hostile workloads: logical step budget via sys.monitoring, write-acknowledgement state oracle, and liveness canaries on other sessions; random bytes plus structure-aware mutation of every valid message kind',
-    'text': 'Every third live connection is ended by a reset (close with SO_LINGER 0) instead of an orderly close, after which the connection table must drain and a new connection from the same source address must be served. Each hostile input is a whole connection (Register, hostile bytes, EOF) against the real simulator: in-process through the same per-frame calls enip_srv_tcp makes (with the step meter), and '
+    'text': 'Bursts of 3..150 registered connections receive hostile input at the same moment and end together, then the canaries. Every third live connection is ended by a reset (close with SO_LINGER 0) instead of an orderly close, after which the connection table must drain and a new connection from the same source address must be served. Each hostile input is a whole connection (Register, hostile bytes, EOF) against the real simulator: in-process through the same per-frame calls enip_srv_tcp makes (with the step meter), and '
             'live against the TCP server (containment). Inputs: random byte strings, and mutations of valid frames of every kind - bit flips, inserted/deleted/duplicated spans, truncation, and '
             'inconsistent length/count/offset fields at every nesting level (encapsulation length, CPF count and item lengths, Unconnected Send length and path sizes, symbolic length, bundle count and '
             'offsets incl. descending/overlapping/out-of-range, extended-status size, Forward Open path size), also several in sequence on one connection. Per input: steps <= budget(length) where the '
